@@ -768,6 +768,23 @@ func runC20(c *Ctx) error {
 		}
 	}
 
+	// a very large dump (hundreds of kilobytes), then small ones right after it: each dump stands alone
+	// (the large one is not a case: only what follows it is observed)
+	{
+		big := struct{ L []int64 }{L: make([]int64, 40000)}
+		for i := range big.L {
+			big.L[i] = int64(i) * 1000003
+		}
+		for round := 0; round < 3; round++ {
+			if n := len(valid.GetDumpStructStr(big)); n < 1<<16 {
+				violations = append(violations, map[string]interface{}{"what": "the large dump is shorter than expected", "length": n})
+			}
+			for _, x := range c20FixedValues()[:6] {
+				add(x, "CDump", "after-large-dump", true)
+			}
+		}
+	}
+
 	// findings: regions of the domain where the dumper differs from the standard encoder; excluded from the generators above
 	type fb struct{ B []byte }
 	type fn struct{ Äb int }
